@@ -152,12 +152,10 @@ def check(c):
     for n in to:
         c.pre('C42.timeout', pr, n, c.matches('_killpg(proc, SIGKILL)'),
               'kill of the process group')
-        st = c.idx.stmt_of(n)
-        blk = c.idx.parent[id(st)]
-        i = [k for k, s in enumerate(blk.body) if s is st][0]
+        from rules._shared import followed_by
         c.ob('C42.timeout', c.key(n, pr)[:100] + ' then continue (not '
-             're-queued)', i + 1 < len(blk.body) and isinstance(
-                 blk.body[i + 1], ast.Continue), c.where(n, pr), '')
+             're-queued)', followed_by(c, c.idx.stmt_of(n), ast.Continue),
+             c.where(n, pr), '')
     # ---- exactly one callback
     ex = c.func(SP, 'SubProcPool._run_command_exit')
     rcb = [n for n in c.calls(ex, '_run_callback')]
